@@ -910,6 +910,8 @@ class TT():
             torch.tensor: the values of the tensor
 
         """
+        if isinstance(indices, np.ndarray):
+            indices = tn.tensor(indices, device=self.cores[0].device)
         if isinstance(indices, (list, tuple)):
             indices = tn.tensor(indices, dtype=tn.int64, device=self.cores[0].device).reshape(len(indices), len(self.__N))
         if tn.is_tensor(indices) and (len(indices.shape) != 2 or indices.shape[1] != len(self.__N)):
@@ -1478,6 +1480,8 @@ class TT():
             rmax = [1] + len(self.__N)*[rmax] + [1]
         elif len(rmax) != len(self.__N)+1:
             raise InvalidArguments('The list of maximum ranks must have one entry per rank.')
+        if any(r < 1 for r in rmax):
+            raise InvalidArguments('The maximum ranks must be positive.')
 
         # call the round function
         tt_cores, R = round_tt(
